@@ -48,8 +48,9 @@ func (c17) Gen(r *rand.Rand, tier string, run int) *core.Case {
 				// 0 keep, 1 one-shot, 2 never-match, 3 one-shot with an unbuffered queue and a
 				// lazy reader, 4 keep with an unbuffered queue and a lazy reader (so that
 				// dispatch meets a full queue and answers calls with an error), 5 keep with
-				// an unbuffered queue whose reader takes nothing before the close callback ran
-				op = core.Op{Kind: "make", X: int64(r.IntN(6)), Y: int64(r.IntN(6))}
+				// an unbuffered queue whose reader takes nothing before the close callback ran, 6 keep, registered
+				// with AddHandler (a consumer function)
+				op = core.Op{Kind: "make", X: int64(r.IntN(7)), Y: int64(r.IntN(6))}
 			case k < 6:
 				op = core.Op{Kind: "remove", X: int64(r.IntN(4)), Y: int64(r.IntN(14))} // X: 0,1 own live; 2 stale/any known; 3 random id Y
 			default:
@@ -242,7 +243,7 @@ func c17make(env *core.Env, st *c17state, a, kind, lazy int) *c17h {
 	released := make(chan struct{})
 	filter := func(hdr *net.Header) (bool, bool) {
 		switch kind {
-		case 0, 4, 5:
+		case 0, 4, 5, 6:
 			return hdr.Action%2 == 0, true
 		case 1, 3:
 			if hdr.Action%3 == 0 {
@@ -269,7 +270,13 @@ func c17make(env *core.Env, st *c17state, a, kind, lazy int) *c17h {
 			close(released)
 		}
 	}
+	if kind == 6 {
+		close(queue) // (not used: see below)
+	}
 	go func() {
+		if kind == 6 {
+			return
+		}
 		if kind == 5 {
 			<-released
 		} else if kind >= 3 {
@@ -295,7 +302,19 @@ func c17make(env *core.Env, st *c17state, a, kind, lazy int) *c17h {
 	st.mu.Lock()
 	rec.makeCall = h.Call
 	st.mu.Unlock()
-	id := st.e.MakeHandler(filter, queue, closer)
+	var id int
+	if kind == 6 {
+		// registered with a consumer function: the endpoint owns the queue
+		// and the goroutine that feeds the function
+		id = st.e.AddHandler(filter, func(*net.Message) error {
+			st.mu.Lock()
+			rec.msgs++
+			st.mu.Unlock()
+			return nil
+		}, closer)
+	} else {
+		id = st.e.MakeHandler(filter, queue, closer)
+	}
 	st.mu.Lock()
 	rec.id = id
 	st.mu.Unlock()
@@ -390,7 +409,7 @@ func (c17) Check(c *core.Case, env *core.Env, res zzsim.Result, v *core.Verdict)
 			if len(r.closerSeqs) != 1 {
 				bad("closer-not-once", "%s was registered before shutdown began (%d): close callback ran %d times", name, st.shutdownSeq, len(r.closerSeqs))
 			}
-			if len(r.closeSeqs) != 1 {
+			if len(r.closeSeqs) != 1 && r.kind != 6 {
 				bad("queue-not-closed-once", "%s was registered before shutdown began (%d): queue closed %d times", name, st.shutdownSeq, len(r.closeSeqs))
 			}
 		}
@@ -398,8 +417,8 @@ func (c17) Check(c *core.Case, env *core.Env, res zzsim.Result, v *core.Verdict)
 	// identifiers are only reused after removal
 	for i, a := range st.hs {
 		for _, b := range st.hs[i+1:] {
-			if a.makeRet == 0 || b.makeRet == 0 || a.id != b.id {
-				continue
+			if a.makeRet == 0 || b.makeRet == 0 || a.id != b.id || a.id < 0 {
+				continue // (a negative number is no identifier: the endpoint was closed already)
 			}
 			ea, eb := endDef(a), endDef(b)
 			if a.makeRet < eb && b.makeRet < ea {
